@@ -146,6 +146,48 @@ type c10World struct {
 	sig     sigAcc
 	// accounting for the non-triviality rule
 	scansMixed, commits, faultsSeen int
+	held                            []*heldSlice // slices returned by Get, kept without copying
+}
+
+func (w *c10World) heldIntact(when string) bool {
+	for _, h := range w.held {
+		if !bytes.Equal(h.slice, h.want) {
+			w.run.Fail("C10", "returned-slice-changed", "%s: the slice returned by %s for %s held %s and now holds %s", when, h.what, short([]byte(h.key)), short(h.want), short(h.slice))
+			return false
+		}
+	}
+	return true
+}
+
+// hold reads a key through the given layer and keeps the returned slice itself (zero-copy read).
+func (w *c10World) hold(txLayer bool, key []byte) bool {
+	if w.fs.failGetIn > 0 {
+		return true // an armed read fault belongs to the next checked read
+	}
+	var v, mv []byte
+	var err error
+	what := "OverlayDB.Get"
+	if txLayer {
+		what = "CacheDB.Get"
+		v, err = w.cache.Get(key)
+		mv = w.txView(string(append([]byte{stPrefix}, key...)))
+	} else {
+		v, err = w.ov.Get(key)
+		mv = w.blockView(string(key))
+	}
+	if err != nil || !bytes.Equal(v, mv) {
+		w.run.Fail("C10", "get-value", "%s(%s)=%s,%v model %s", what, short(key), short(v), err, short(mv))
+		return false
+	}
+	if len(v) > 0 {
+		if len(w.held) >= 8 {
+			w.held = w.held[1:]
+		}
+		w.held = append(w.held, &heldSlice{slice: v, want: clone(v), what: what, key: string(key), isValue: true})
+		w.run.Probe("held_slice")
+	}
+	w.run.Logf("hold %s(%s) -> %s", what, short(key), short(v))
+	return true
 }
 
 func (w *c10World) open() error {
@@ -426,10 +468,10 @@ func c10Generate(rng *kernel.RNG, idx int, tier string) *kernel.Plan {
 	}
 	nbk, ntk := 4+rng.Intn(len(blockKeys)-3), 3+rng.Intn(len(txKeys)-2)
 	ops := []string{"bput", "bdel", "oput", "odel", "oget", "oscan", "oreset", "ocommit", "cput", "cdel", "cget", "cscan", "ccommit", "creset", "cnew",
-		"reopen", "restart", "crashbatch", "failget", "failiter", "sweep"}
+		"reopen", "restart", "crashbatch", "failget", "failiter", "sweep", "ohold", "chold"}
 	// reopen/restart/crashbatch cost ~40 ms each (LevelDB journal recovery): not drawn by weight but
 	// placed 0-1 times each per run (see below)
-	wt := []int{3, 1, 14, 6, 10, 8, 1, 3, 14, 6, 10, 8, 4, 1, 2, 0, 0, 0, 3, 3, 1}
+	wt := []int{3, 1, 14, 6, 10, 8, 1, 3, 14, 6, 10, 8, 4, 1, 2, 0, 0, 0, 3, 3, 1, 3, 3}
 	for i := range wt {
 		switch rng.Intn(7) {
 		case 0:
@@ -466,9 +508,9 @@ func c10Generate(rng *kernel.RNG, idx int, tier string) *kernel.Plan {
 			steps = append(steps, kernel.Step{Op: op, A: []int64{int64(rng.Intn(nbk)), int64(rng.Intn(nValKinds)), int64(rng.Intn(50))}})
 		case "cput":
 			steps = append(steps, kernel.Step{Op: op, A: []int64{int64(rng.Intn(ntk)), int64(rng.Intn(nValKinds)), int64(rng.Intn(50))}})
-		case "bdel", "odel", "oget":
+		case "bdel", "odel", "oget", "ohold":
 			steps = append(steps, kernel.Step{Op: op, A: []int64{int64(rng.Intn(nbk))}})
-		case "cdel", "cget":
+		case "cdel", "cget", "chold":
 			steps = append(steps, kernel.Step{Op: op, A: []int64{int64(rng.Intn(ntk))}})
 		case "oscan":
 			steps = append(steps, kernel.Step{Op: op, A: []int64{int64(rng.Intn(len(blockPrefixes)))}})
@@ -588,6 +630,14 @@ func c10Steps(w *c10World) {
 			run.Logf("odel %s", short([]byte(mk)))
 		case "oget":
 			if !w.get(false, pick(bkeys, st.Arg(0))) {
+				return
+			}
+		case "ohold":
+			if !w.hold(false, pick(bkeys, st.Arg(0))) {
+				return
+			}
+		case "chold":
+			if !w.hold(true, pick(tkeys, st.Arg(0))) {
 				return
 			}
 		case "oscan":
@@ -715,6 +765,14 @@ func c10Steps(w *c10World) {
 				return
 			}
 		}
+		switch st.Op {
+		case "oput", "odel", "cput", "cdel", "ccommit":
+			if !w.heldIntact("after " + st.Op) {
+				return
+			}
+		case "oreset", "ocommit", "creset", "cnew", "reopen", "restart", "crashbatch":
+			w.held = nil // the buffers the kept slices point into may be re-used or gone
+		}
 		if i%25 == 24 {
 			h := []kv{}
 			for _, k := range w.allKeys() {
@@ -730,7 +788,7 @@ func init() {
 	kernel.Register(&kernel.Check{
 		ID: "C10", Level: "exploration", Engine: engineName,
 		Rule: "case = 0-12 seeded persisted entries followed by 80-200 (thorough: up to 500) operations on the stack LevelDB(real files) <- OverlayDB <- CacheDB: direct backend put/delete (including persisted empty values), block-layer put/delete/get/prefix scan/reset, " +
-			"tx-layer put/delete/get/prefix scan/commit/reset/new, block commit (NewBatch+CommitTo+BatchCommit, then Reset / keep / fresh layers), close+reopen of the LevelDB under live layers, process restart, crash between CommitTo and BatchCommit, " +
+			"tx-layer put/delete/get/prefix scan/commit/reset/new, zero-copy reads at both layers (the slice returned by Get is kept and must keep its bytes across later writes and tx commits until a layer is reset), block commit (NewBatch+CommitTo+BatchCommit, then Reset / keep / fresh layers), close+reopen of the LevelDB under live layers, process restart, crash between CommitTo and BatchCommit, " +
 			"and injected backend read errors (n-th Get fails; backend iterator fails at its k-th positioning call) placed directly before reads; keys from namespaced alphabets with prefix relations, 0xff runs and neighbours just outside the storage namespace; " +
 			"per-run key subset and op weights, 30% of runs fault-free. After every step the touched view is compared with the three-map model; full sweeps (every key, every prefix at both layers, exact LevelDB content) at sweep steps, after commits/reopens and at the end. " +
 			"non-trivial = at least one scan that mixed a deleted, an overwritten and a backend-only key, and at least one commit; distinct by digest of all read results",
@@ -738,7 +796,7 @@ func init() {
 		Stub:        []string{"backend read errors are injected by a PersistStore wrapper around the real LevelDB store (OverlayDB takes the interface); no /repo hook needed"},
 		Assumptions: []string{"nil and empty values are not distinguished; an empty persisted value reads as empty and is not listed by scans (the stack itself never persists one)", "iterators are used by First/Next only (the StoreIterator interface) and not across writes", "torn LevelDB batches are excluded by LevelDB's journal", "after an injected read error the check asserts only: error returned, OverlayDB.Error() set (Get) / iterator Error() set and items listed so far are a correct prefix (scan); then the error state is cleared"},
 		QuickRuns:   1000, ThoroughRuns: 40000, QuickCap: 40, ThoroughCap: 800,
-		RequiredProbes: []string{"scan_mixing_deleted_overwritten_backendonly", "block_commit", "tx_commit", "backend_get_error", "backend_iter_error", "backend_close_reopen", "process_restart", "crash_before_batch_commit", "block_reset", "tx_reset"},
+		RequiredProbes: []string{"scan_mixing_deleted_overwritten_backendonly", "block_commit", "tx_commit", "backend_get_error", "backend_iter_error", "backend_close_reopen", "process_restart", "crash_before_batch_commit", "block_reset", "tx_reset", "held_slice"},
 		Generate:       c10Generate,
 		Execute:        c10Execute,
 	})
